@@ -422,7 +422,7 @@ func (fr *Frame) exec(in ssa.Instruction) {
 			ex.abstr["function value stored to memory in "+fr.fn.Name()] = true
 			v = vInt("0")
 		}
-		if v.K == VPtr && (v.P.Root != "obj" || v.P.Path != "") {
+		if v.K == VPtr && (v.P.Root != "obj" || v.P.Path != "") && !ptrHasRef(v.P) {
 			// an interior pointer kept in a local cell (captured receiver etc.): remembered symbolically
 			if a.P.Root == "obj" && strings.HasPrefix(a.P.Ref, "ref!") {
 				if ex.cellPtr == nil {
